@@ -319,6 +319,13 @@ func (k *Kernel) freeRun() {
 	}
 }
 
+// Shuffle permutes names with a stream derived from the kernel seed only (it
+// does not consume scheduling randomness and is safe from any task).
+func (k *Kernel) Shuffle(names []string) {
+	r := rand.New(rand.NewPCG(k.prioSalt, uint64(len(names))))
+	r.Shuffle(len(names), func(i, j int) { names[i], names[j] = names[j], names[i] })
+}
+
 // TraceHash identifies the schedule (task@site sequence and runnable-set sizes).
 func (k *Kernel) TraceHash() uint64 { return k.traceHash }
 
